@@ -2764,6 +2764,24 @@ class PerspConvex(Convex):
 
         return self.__mul__(other)
 
+    def __call__(self):
+
+        scale = self.affine_scale
+        if isinstance(scale, (Vars, Affine)):
+            scale = scale()
+        value_in = self.affine_in()
+        if isinstance(self.affine_out, Affine):
+            value_out = self.affine_out()
+        else:
+            value_out = self.affine_out
+        coef = self.multiplier * self.sign * scale
+        if self.xtype == 'X':
+            return coef * np.exp(value_in / scale) + value_out
+        elif self.xtype == 'L':
+            return - coef * np.log(value_in / scale) + value_out
+        else:
+            raise ValueError('Unsupported convex/concave expression.')
+
     def __le__(self, other):
 
         left = self - other
